@@ -1,0 +1,42 @@
+//go:build verif
+// +build verif
+
+package hotrestart
+
+import (
+	"fmt"
+	"net"
+	"syscall"
+)
+
+// Re-exports for the verification harness (/verif). Compiled only with -tags verif.
+
+// VerifReadMessage is readMessage; a panic is reported as an error starting with "panic:".
+func VerifReadMessage(conn *net.UnixConn) (typ uint8, length uint16, data []byte, err error) {
+	defer func() {
+		if r := recover(); r != nil {
+			err = fmt.Errorf("panic: %v", r)
+		}
+	}()
+	m, err := readMessage(conn)
+	if err != nil {
+		return 0, 0, nil, err
+	}
+	return uint8(m.Type), m.Len, m.Data, nil
+}
+
+// VerifSendMessage is sendMessage on a message built from its parts.
+func VerifSendMessage(conn *net.UnixConn, typ uint8, length uint16, data []byte) (err error) {
+	defer func() {
+		if r := recover(); r != nil {
+			err = fmt.Errorf("panic: %v", r)
+		}
+	}()
+	return sendMessage(conn, &message{Type: messageType(typ), Len: length, Data: data})
+}
+
+// VerifSetKill replaces the kill function used by the terminate handler.
+func VerifSetKill(f func(pid int, sig syscall.Signal) error) { kill = f }
+
+// VerifSocketName is genDomainSocketName.
+func VerifSocketName(id int) string { return genDomainSocketName(id) }
